@@ -228,6 +228,37 @@ def run_c01(chk):
         sessions.append(s.ops)
         chk.case(tuple(str(o) for o, _ in s.ops), nontrivial=len(s.ops) > 5,
                  sample={"ops": [str(o)[:80] for o, _ in s.ops[:10]]})
+    # runtime state that points into a line, then an edit of that very line (or another), then the statement that follows the
+    # reference: nothing may panic, whatever the edit was (seeded change C01-mut8: a deletion kept breakpoint, frames, loops,
+    # functions and the DATA cursor, and the next CONT / RETURN / NEXT / FN call / READ indexed the deleted line)
+    HOLDERS = [(["10 STOP", "20 PRINT 1"], 10, ["CONT"]),
+               (["10 GOSUB 30", "20 END", "30 STOP", "40 RETURN"], 10, ["RETURN", "CONT"]),
+               (["10 GOSUB 30", "20 END", "30 STOP", "40 RETURN"], 30, ["CONT", "RETURN"]),
+               (["10 FOR I = 1 TO 3", "20 STOP", "30 NEXT I"], 10, ["NEXT I", "CONT"]),
+               (["10 DEF FNA(X) = X + 1", "20 STOP", "30 PRINT FNA(2)"], 10, ["PRINT FNA(1)", "GOTO 30"]),
+               (["10 DATA 1, X, 3", "20 READ A", "30 STOP", "40 READ B"], 10, ["READ B", "GOTO 40"]),
+               (["10 INPUT A", "20 PRINT A"], 10, ["CONT", "PRINT A"])]
+    for prog, target, probes in HOLDERS:
+        for edit in ("delete", "replace", "add", "other", "rejected"):
+            for probe in probes:
+                if not h.alive():
+                    h.restart()
+                s = sess.Session(h)
+                for l in prog:
+                    each(s, s.line(l))
+                each(s, s.line("RUN"))
+                for rw in s.run_until_idle(max_turns=20, break_at={19}):
+                    each(s, rw)
+                if s.state == "AwaitingInput":
+                    each(s, s.brk())
+                text = {"delete": str(target), "replace": f"{target} REM", "add": "5 REM", "other": "9000 REM", "rejected": f'{target} PRINT "'}[edit]
+                each(s, s.line(text))
+                each(s, s.line(probe))
+                for rw in s.run_until_idle(max_turns=20):
+                    each(s, rw)
+                sessions.append(s.ops)
+                chk.count("edit-then-probe")
+                chk.case(("edit-probe", tuple(prog), edit, probe), sample={"program": prog, "edit": text, "probe": probe})
     # the boundary corpus, every line once (histories above pick from it at random)
     s = sess.Session(h)
     for text in BOUNDARY_LINES:
